@@ -125,7 +125,7 @@ CHECKS = {
                 "change); none is reported on the unchanged tree.",
         "design_ref": "DESIGN.md 2/C14",
         "note": "Trusted: as C02/C11. Partial: the theorem is about index arithmetic relative to the modelled allocation; real memory "
-                "effects, aliasing rules and Vec internals are outside the model. Defect D3 was found by this check and fixed.",
+                "effects, aliasing rules and Vec internals are outside the model. Defects D3, D16 and D17 (buf_write_ptr length overflow) were found by this check and fixed.",
         "technique": "Coq proof (safety invariant over histories with caught panics) + model/implementation correspondence",
     },
     "C10": {
